@@ -109,10 +109,13 @@ impl Acceptors {
         r.set_handshake_timeout(timeout);
         let mut o = acc_openssl::Acceptor::new(tlsutil::openssl_acceptor(&pki.leaf));
         o.set_handshake_timeout(timeout);
-        let mut mk_r = || now_or_panic(ServiceFactory::<End>::new_service(&r, ())).unwrap();
-        let rustls = [mk_r(), mk_r()];
-        let mut mk_o = || now_or_panic(ServiceFactory::<End>::new_service(&o, ())).unwrap();
-        let openssl = [mk_o(), mk_o()];
+        // instance 0 is built from the configured acceptor itself, instance 1 from a clone of it
+        // (cloning the acceptor into a per-worker factory closure is the documented pattern)
+        let (r2, o2) = (r.clone(), o.clone());
+        let mk_r = |a: &acc_rustls::Acceptor| now_or_panic(ServiceFactory::<End>::new_service(a, ())).unwrap();
+        let rustls = [mk_r(&r), mk_r(&r2)];
+        let mk_o = |a: &acc_openssl::Acceptor| now_or_panic(ServiceFactory::<End>::new_service(a, ())).unwrap();
+        let openssl = [mk_o(&o), mk_o(&o2)];
         Acceptors { rustls, openssl }
     }
 
@@ -181,13 +184,15 @@ const DEVS: [Dev; 10] = [Dev::Stall, Dev::Split1, Dev::SplitHalf, Dev::Garbage, 
 #[derive(Clone, Debug)]
 pub struct HsCase {
     kind: Kind,
+    /// 0: service built from the configured acceptor, 1: from a clone of it
+    inst: usize,
     timeout_ms: u64,
     /// (delivery index, deviation)
     devs: Vec<(usize, Dev)>,
 }
 
 fn hs_json(c: &HsCase) -> Value {
-    json!({"part": "handshake", "kind": format!("{:?}", c.kind), "timeout_ms": c.timeout_ms, "devs": c.devs.iter().map(|(i, d)| json!([i, format!("{:?}", d)])).collect::<Vec<_>>()})
+    json!({"part": "handshake", "kind": format!("{:?}", c.kind), "inst": c.inst, "timeout_ms": c.timeout_ms, "devs": c.devs.iter().map(|(i, d)| json!([i, format!("{:?}", d)])).collect::<Vec<_>>()})
 }
 
 fn dev_from(s: &str) -> Dev {
@@ -298,7 +303,7 @@ fn run_handshake(rt: &tokio::runtime::Runtime, pki: &Pki, c: &HsCase) -> HsOut {
     let t = Duration::from_millis(c.timeout_ms);
     let acc = Acceptors::new(pki, t);
     let start = tokio::time::Instant::now();
-    let mut pair = Pair::new(&acc, c.kind, pki, false);
+    let mut pair = Pair::new_i(&acc, c.kind, c.inst, pki, false);
     let mut out = HsOut { res: None, resolved_at_ms: None, pending_after_deadline: false, deliveries: 0, client_ok: false, tampered: false, client_disturbed: false, all_client_bytes_delivered_before_deadline: true, deadline_seen: false, echo_error: None };
     let elapsed = |start: tokio::time::Instant| tokio::time::Instant::now().duration_since(start);
     let mut note = |pair: &Pair, out: &mut HsOut| {
@@ -491,7 +496,7 @@ fn echo(ctl: &Control, mut srv: Box<dyn Rw>, mut cli: Box<dyn Rw>, size: usize, 
 
 fn check_handshake(c: &HsCase, o: &HsOut) -> Option<(String, String)> {
     let t = c.timeout_ms;
-    let k = format!("{:?}", c.kind).to_lowercase();
+    let k = format!("{:?}{}", c.kind, if c.inst == 1 { ":service-from-a-cloned-acceptor" } else { "" }).to_lowercase();
     let bad = |sig: &str, msg: String| Some((format!("C18:{sig}:{k}"), msg));
     match (&o.res, o.resolved_at_ms) {
         (None, _) => return bad("never-resolved", format!("the accept future was still pending at 1.5 x the handshake timeout ({t} ms)")),
@@ -607,15 +612,11 @@ impl<'a> Conc<'a> {
         let mut expect_wake = false;
         match op {
             COp::Ready(s) => {
-                // one task polls every service of the thread (as an actix-server worker does)
-                let f = match &self.parked {
-                    Some(f) if f.wakes() == 0 => f.clone(),
-                    _ => {
-                        let f = Flag::new();
-                        f.take();
-                        f
-                    }
-                };
+                // a fresh waker for every poll: whichever waker was handed over last is the one
+                // that must be woken (one task polling all services of the thread, its waker
+                // changing between polls)
+                let f = Flag::new();
+                f.take();
                 let w = Waker::from(f.clone());
                 let (kind, inst) = self.svcs[s];
                 let r = self.acc.poll_ready_i(kind, inst, &mut Context::from_waker(&w));
@@ -629,6 +630,8 @@ impl<'a> Conc<'a> {
                             return Some((format!("C18:ready-error:{k}"), "poll_ready returned an error".into()));
                         }
                         self.may_call[s] = true;
+                        // the task has been told to go ahead: it is not waiting any more
+                        self.parked = None;
                     }
                     Poll::Pending => {
                         if want_ready {
@@ -640,8 +643,10 @@ impl<'a> Conc<'a> {
                 }
             }
             COp::Call(s) => {
-                // a call consumes the readiness of every service: they share the thread's budget
-                self.may_call.iter_mut().for_each(|m| *m = false);
+                // a call consumes the readiness answer of that service only: another service of the
+                // thread that was told Ready earlier may still be called (the Service contract
+                // allows it), which is how a freed slot can be retaken without a readiness check
+                self.may_call[s] = false;
                 let _g = self.rt.enter();
                 let (kind, inst) = self.svcs[s];
                 let p = Pair::new_i(&self.acc, kind, inst, self.pki, true);
@@ -751,7 +756,8 @@ fn conc_dfs(pki: &Pki, svcs: &[(Kind, usize)], limit: usize, seq: &mut Vec<COp>,
     }
     for op in enabled {
         // poll_ready twice in a row adds nothing
-        if matches!(op, COp::Ready(_)) && seq.last() == Some(&op) {
+        // the same poll_ready three times in a row adds nothing (twice does: the waker changes)
+        if matches!(op, COp::Ready(_)) && seq.len() >= 2 && seq[seq.len() - 1] == op && seq[seq.len() - 2] == op {
             continue;
         }
         seq.push(op);
@@ -770,6 +776,7 @@ pub fn run(args: &Args) -> i32 {
         if r["part"] == "handshake" {
             let c = HsCase {
                 kind: if r["kind"] == "Openssl" { Kind::Openssl } else { Kind::Rustls },
+                inst: r["inst"].as_u64().unwrap_or(0) as usize,
                 timeout_ms: r["timeout_ms"].as_u64().unwrap(),
                 devs: r["devs"].as_array().unwrap().iter().map(|d| (d[0].as_u64().unwrap() as usize, dev_from(d[1].as_str().unwrap()))).collect(),
             };
@@ -844,7 +851,11 @@ pub fn run(args: &Args) -> i32 {
     for kind in [Kind::Rustls, Kind::Openssl] {
         for t in &timeouts {
             for d in &dev_sets {
-                cases.push(HsCase { kind, timeout_ms: *t, devs: d.clone() });
+                cases.push(HsCase { kind, inst: 0, timeout_ms: *t, devs: d.clone() });
+                if d.len() <= 1 {
+                    // the service built from a *clone* of the configured acceptor
+                    cases.push(HsCase { kind, inst: 1, timeout_ms: *t, devs: d.clone() });
+                }
             }
         }
     }
